@@ -518,9 +518,9 @@ def run_c15(rep, tier):
     r = gen.rng(seed_, 'C15')
     # (a) design runs
     for cfg, what in (('Purity_design.cfg', 'all interleavings of 2 threads x 3 calls over the pipeline stages with the ownership model'),):
-        out, st = common.run_tlc('Purity', cfg=cfg, workers=common.NCPU, timeout=1500, xmx='8g', coverage=True)
+        out, st = common.run_tlc('Purity', cfg=cfg, workers=common.NCPU, timeout=1500, xmx='8g')
         rep.add_design('Purity', cfg, out, st, what)
-    out, st = common.run_tlc('Purity', cfg='Purity_dev.cfg', workers=4, timeout=600, coverage=True)
+    out, st = common.run_tlc('Purity', cfg='Purity_dev.cfg', workers=4, timeout=600)
     if 'Invariant LibUntouched is violated' not in out and 'is violated' not in out:
         raise common.MachineryError('negative control failed: TLC did not find the violation of the shared-scratch deviation')
     rep.notes['negative_control'] = 'with Dev_SharedScratch enabled TLC reports a violated invariant (as it must)'
